@@ -35,6 +35,9 @@ func (i *JsByte) UnmarshalJSON(b []byte) error {
 		return ErrInvalidByteJs
 	}
 
+	if b[0] != '"' || b[lb-1] != '"' {
+		return ErrInvalidByteJs
+	}
 	strBuf := string(b[1 : lb-1])
 	return i.FromString(strBuf)
 }
